@@ -125,6 +125,11 @@ def gen(rng, tier):
                 continue
             k += 1
             out.append(Case("bdeduce", ty, "bi", "-", [], x + c0[0] + [c0[1]] + c1[0] + [c1[1]] + [ay], tag=tag))
+        # conditionals tied in the component bounding K (K = 0; the threshold comparison is decided by rounding)
+        for i in range(400 if tier == "quick" else 40000):
+            nums = c14.tied_conditionals(rng, ty, i)
+            if nums is not None:
+                out.append(Case("bdeduce", ty, "bi", "-", [], nums, tag="tied_conditionals"))
         # unlabelled products
         for dims in ([2, 2], [2, 3], [3, 3], [3, 4], [4, 4], [2, 2, 2], [2, 3, 2], [3, 3, 2], [3, 3, 3]):
             for i in range(60 if tier == "quick" else 2500):
@@ -137,6 +142,11 @@ def gen(rng, tier):
                     # if the joint projection and the product of the beliefs are rounded alike
                     ws = [G.float_opinion(rng, ty, n, u=0.0, positive=rng.chance(1, 2)) for n in dims]
                     tag = "dogmatic_float_product"
+                if not grid and i % 6 == 3 and max(dims) >= 3:
+                    # dogmatic factors whose belief masses add up to the float just above 1: every joint projection lies
+                    # a rounding residue below the product of the beliefs, the smallest quotient is -(b/a) residue < 0
+                    ws = [G.overfull_dogmatic(rng, ty, n) if n >= 3 else G.float_opinion(rng, ty, n, u=0.0) for n in dims]
+                    tag = "overfull_dogmatic_product"
                 nums = sum((flat_op(w) for w in ws), [])
                 op = "prod2" if len(dims) == 2 else "prod3"
                 out.append(Case(op, ty, "arr", rng.choice(["own", "ref"]), dims, nums, mdims=dims + [0], tag=tag))
@@ -167,18 +177,11 @@ def predicates(c, ri, rm):
         return []
     exact = "the exact result is well-formed" if rm[0] == "OK" else "the model also fails"
     grid = c.tag.startswith("grid")
-    if c.tag.endswith("dogmatic_float_product") and rm[0] != "OK":
-        # float factors are well-formed only up to the constructors' tolerance (sum of masses up to 4 ulps above 1);
-        # for dogmatic factors the exact product then has u = -(b/a)(delta_0 + delta_1 ..) < 0, amplified by 1/a beyond
-        # the tolerance: the mathematically exact result is itself ill-formed, the failure is legitimate
-        return []
     return ["%s failed on %s operands inside its domain although %s: %s" % (
         c.op, "exactly representable (dyadic)" if grid else "well-formed", exact, classify(c, ri))]
 
 
 def compare(c, ri, rm):
-    if c.tag.endswith("dogmatic_float_product") and rm[0] == "NONE":
-        return None     # exact result marginally ill-formed (see predicates): rounding decides whether it is accepted
     from .. import core
     return core.compare(c, ri, rm, scale=scale(c, rm), none_kinds=NONE_KINDS)
 
